@@ -1,4 +1,7 @@
-pub(crate) struct Pretty;
+#[derive(Default)]
+pub(crate) struct Pretty {
+    in_value: bool,
+}
 
 impl crate::visit_mut::VisitMut for Pretty {
     fn visit_document_mut(&mut self, node: &mut crate::DocumentMut) {
@@ -6,9 +9,15 @@ impl crate::visit_mut::VisitMut for Pretty {
     }
 
     fn visit_item_mut(&mut self, node: &mut crate::Item) {
-        node.make_item();
+        // Inside a value (an array or an inline table) tables have to stay inline tables
+        let is_parent_value = self.in_value;
+        if !is_parent_value {
+            node.make_item();
+            self.in_value = node.is_value();
+        }
 
         crate::visit_mut::visit_item_mut(self, node);
+        self.in_value = is_parent_value;
     }
 
     fn visit_table_mut(&mut self, node: &mut crate::Table) {
